@@ -3906,7 +3906,11 @@ spmatrix_ass_subscr(spmatrix* self, PyObject* args, PyObject* value)
     int_t rhs_i, rhs_j = Js[0].key;
     for (j=0; j<SP_NCOLS(self); j++) {
 
-      if (rhs_j < j && rhs_cntj++ < lgtJ-1) {
+      if (rhs_j < j && rhs_cntj < lgtJ-1) {
+        /* next column in J that is not to the left of j (J may
+           contain repeated columns) */
+        rhs_cntj++;
+        while (rhs_cntj < lgtJ-1 && Js[rhs_cntj].key < j) rhs_cntj++;
         rhs_j = Js[rhs_cntj].key;
       }
 
@@ -4011,7 +4015,9 @@ spmatrix_ass_subscr(spmatrix* self, PyObject* args, PyObject* value)
     int_t rhs_i, rhs_j = -1;
     for (j=0; j<SP_NCOLS(self); j++) {
 
-      if (rhs_j < j && rhs_cntj++ < lgtJ-1) {
+      if (rhs_j < j && rhs_cntj < lgtJ-1) {
+        rhs_cntj++;
+        while (rhs_cntj < lgtJ-1 && Js[rhs_cntj].key < j) rhs_cntj++;
         rhs_j = Js[rhs_cntj].key;
         rhs_offs_rptr = SP_COL(value)[Js[rhs_cntj].value];
 
